@@ -1416,13 +1416,13 @@ impl ASN1Value {
         s: &SequenceOrSetOf,
         tlds: &BTreeMap<String, ToplevelDefinition>,
     ) -> Result<ASN1Value, GrammarError> {
-        let _ = val.iter_mut().try_for_each(|v| {
+        val.iter_mut().try_for_each(|v| {
             v.1.link_with_type(
                 tlds,
                 &s.element_type,
                 Some(&s.element_type.as_str().into_owned()),
             )
-        });
+        })?;
         Ok(ASN1Value::LinkedArrayLikeValue(
             val.iter().map(|v| v.1.clone()).collect(),
         ))
